@@ -298,6 +298,7 @@ func (w *worker) runO(c map[string]any) []map[string]any {
 	chain, backend, ver := ndj.Str(c, "chain"), ndj.Str(c, "backend"), ndj.Str(c, "ver")
 	outs := outsOf(c)
 	nin := int(ndj.Int(c, "nin"))
+	inkind := ndj.Str(c, "inkind")
 	var res []map[string]any
 	for ps := 0; ps < npsO; ps++ {
 		p := getParams(chain, ps)
@@ -313,13 +314,13 @@ func (w *worker) runO(c map[string]any) []map[string]any {
 		switch backend {
 		case "cln":
 			bw := tx.NewBtcWallet(r)
-			bw.Layout, bw.NIn = outs, nin
+			bw.Layout, bw.NIn, bw.InKind = outs, nin, inkind
 			f := w.getCln(bw, ver >= "v23.05")
 			txHex, _, txid, _, vout, err = clightning.VerifNewWalletClient(f.Gl, f.Gb, btcChain("normal"), ver).CreateOpeningTransaction(op)
 			bcast = bw.Broadcast
 		case "lnd":
 			bw := tx.NewBtcWallet(r)
-			bw.Layout, bw.NIn = outs, nin
+			bw.Layout, bw.NIn, bw.InKind = outs, nin, inkind
 			calls := []string{}
 			cl := lnd.VerifNewWalletClient(context.Background(), &tx.FakeLndLightning{W: bw, Calls: &calls}, &tx.FakeLndWalletKit{W: bw, Calls: &calls}, btcChain("normal"))
 			txHex, _, txid, _, vout, err = cl.CreateOpeningTransaction(op)
@@ -342,6 +343,7 @@ func (w *worker) runO(c map[string]any) []map[string]any {
 			if chain == "btc" {
 				if t, e := tx.BtcParse(bcast[0]); e == nil {
 					m["txidok"] = t.TxHash().String() == txid
+					m["scriptsig"] = len(t.TxIn[0].SignatureScript) > 0
 					m["swapidx"] = tx.SwapIdxBtc(p, t)
 					m["nouts"] = len(t.TxOut)
 				}
